@@ -7,7 +7,7 @@ import numpy as np
 
 import scen
 from common import TWO53, run_driver_parallel, run_driver
-from impl import ImplRunner
+from impl import ImplRunner, make_action
 
 KINDS = ["service_scan", "os_scan", "subnet_scan", "process_scan", "exploit", "privesc", "noop"]
 
@@ -51,6 +51,8 @@ def split_out(o):
         d["goal"] = o[1]
     elif tag == 4:
         d["mask"] = o[1]
+    elif tag == 5:
+        d["state"] = o[1]
     return d
 
 
@@ -96,6 +98,11 @@ class CaseGen:
         rng = self.rng
         r = rng.random()
         src = self.cfg.get("sources", ("random", "shipped", "generated"))
+        if rng.random() < self.cfg.get("multi_route_frac", 0.12):
+            # several routes to the same deep subnets (ring: two public ends; diamond: two branches)
+            fam = rng.choice(["ring", "diamond"])
+            sd = scen.random_sd(rng, family=fam)
+            return fam, sd, scen.sd_to_scenario(sd)
         if r < 0.72 or src == ("random",):
             sd = scen.random_sd(rng, small=self.cfg.get("small", False))
             return "random", sd, scen.sd_to_scenario(sd)
@@ -128,18 +135,55 @@ class CaseGen:
             k = rng.randrange(TWO53)
         return min(max(k, 0), TWO53 - 1)
 
-    def pick_action(self, runner, flat, by_target):
-        """index into the model's flat list, guided by the implementation's current state"""
+    def changing(self, runner, flat, state, ban=(), limit=25):
+        """flat indices of actions that change `state` when their draw succeeds, found by asking the
+        implementation itself (generative_step is documented to be free of side effects)"""
+        rng = self.rng
+        cands = [i for i, a in enumerate(flat) if a[0] != 6 and a[1][0] not in ban]
+        rng.shuffle(cands)
+        res = []
+        for i in cands[:limit]:
+            runner.shim.k, runner.shim.calls = 0, 0
+            runner.shim.install()
+            try:
+                ns = runner.env.generative_step(state, make_action(flat[i], runner.names, None, None))[0]
+            except Exception:   # noqa: BLE001
+                continue
+            finally:
+                runner.shim.remove()
+            if not np.array_equal(ns.tensor, state.tensor):
+                res.append(i)
+        self.stats["oracle_calls"] += 1
+        return res
+
+    def pick_action(self, runner, flat, by_target, state=None, ban=()):
+        """index into the model's flat list, guided by the implementation state the action will be applied to"""
         rng = self.rng
         hist = getattr(runner, "succeeded", None)
         queue = getattr(runner, "retry_queue", None)
-        if queue and rng.random() < 0.85:
-            return queue.pop()           # right after a reset: what worked before, latest first
+        state = runner.env.current_state if state is None else state
+        look = getattr(runner, "scan_queue", None)
+        if look and rng.random() < self.cfg.get("scan_bias", 0.2):
+            return look.pop(rng.randrange(len(look)))     # look at a host again after something changed on it
+        if queue and rng.random() < (0.85 if not ban else 0.5):
+            st = np.asarray(state.tensor)
+            p = runner.lay[0] + runner.lay[1]
+            hi = runner.addrs.index(tuple(flat[queue[-1]][1]))
+            if not ban or (st[hi][p + 1] and st[hi][p + 2]) or rng.random() < 0.15:
+                return queue.pop()       # right after a reset: what worked before
         if hist and rng.random() < 0.15:
-            return rng.choice(hist)      # retry something that worked before
+            ai = rng.choice(hist)        # retry something that worked before
+            if flat[ai][1][0] not in ban:
+                return ai
+        if rng.random() < self.cfg.get("oracle", 0.3):
+            ch = self.changing(runner, flat, state, ban)
+            if ch:
+                return rng.choice(ch)
+            if queue:
+                return queue.pop()
         r = rng.random()
         if r < 0.8:
-            st = np.asarray(runner.env.current_state.tensor)
+            st = np.asarray(state.tensor)
             b0, b1 = runner.lay[0], runner.lay[1]
             p = b0 + b1
             live = [i for i, row in enumerate(st) if row[p + 1] and row[p + 2]]
@@ -152,7 +196,7 @@ class CaseGen:
                 want = 4 if rr < 0.4 else 5 if rr < 0.55 else 2 if rr < 0.75 else None
                 if hi in comp and rr < 0.75:
                     want = 5 if rr < 0.35 else 2 if rr < 0.65 else 3
-                c = [i for i in idxs if want is None or flat[i][0] == want]
+                c = [i for i in idxs if (want is None or flat[i][0] == want) and flat[i][1][0] not in ban]
                 if c:
                     return rng.choice(c)
         return rng.randrange(len(flat))
@@ -171,17 +215,47 @@ class CaseGen:
             by_target.setdefault(tuple(a[1]), []).append(i)
         runner = ImplRunner(scenario, sd, modes, arg_style=cfg.get("arg_style", "plain"))
         ops, outs = [], []
-        weights = cfg.get("op_weights", dict(step=0.74, gen=0.12, reset=0.05, goal=0.09, mask=0.0))
+        weights = cfg.get("op_weights", dict(step=0.72, gen=0.12, reset=0.05, goal=0.09, mask=0.0, init=0.02))
+        weights = dict(weights)
+        weights.setdefault("init", 0.02)
+        if cfg.get("mask_choices"):
+            weights["mask"] = rng.choice(cfg["mask_choices"])      # masks read at every step ... hardly ever
         if not modes[1]:
             weights = dict(weights, mask=0.0)
         names_, ws = zip(*weights.items())
+        ban, last_gen = set(), False
         for _ in range(nops):
             kind = rng.choices(names_, ws)[0]
+            pi = None
             if kind == "reset":
                 op = [0]
-                runner.retry_queue = list(getattr(runner, "succeeded", [])[-6:])
+                if cfg.get("mask_choices") and modes[1]:
+                    weights["mask"] = rng.choice(cfg["mask_choices"])     # re-drawn for every episode
+                    names_, ws = zip(*weights.items())
+                done_ = list(getattr(runner, "succeeded", []))
+                x_ = rng.random()
+                ban = set()
+                if x_ < 0.45:
+                    runner.retry_queue = done_[-6:]                       # latest first: targets now out of reach
+                elif x_ < 0.7:
+                    runner.retry_queue = list(reversed(done_[-8:]))       # in order: deep states again
+                else:
+                    # another route: stay out of one subnet the last episode went through, then the same deep targets
+                    st_ = np.asarray(runner.env.current_state.tensor)
+                    p_ = runner.lay[0] + runner.lay[1]
+                    deep = flat[done_[-1]][1][0] if done_ else None
+                    through = sorted({runner.addrs[i][0] for i, row in enumerate(st_) if row[p_]} - {deep})
+                    if through:
+                        ban = {rng.choice(through)}
+                    runner.retry_queue = list(reversed([w_ for w_ in done_[-10:]
+                                                        if rng.random() < 0.7 and flat[w_][1][0] not in ban]))
             elif kind in ("step", "gen"):
-                ai = self.pick_action(runner, flat, by_target)
+                base = None
+                if kind == "gen":
+                    # a branch: mostly continued from the state the previous generative step produced
+                    pi = len(runner.pool) - 1 if (rng.random() < (0.7 if last_gen else 0.4)) else rng.randrange(len(runner.pool))
+                    base = runner.pool[pi]
+                ai = self.pick_action(runner, flat, by_target, state=base, ban=ban)
                 wa = flat[ai]
                 r = rng.random()
                 if r < cfg.get("obj_frac", 0.1):
@@ -194,19 +268,28 @@ class CaseGen:
                 if kind == "step":
                     op = [1, x, k]
                 else:
-                    op = [2, rng.randrange(len(runner.pool)) if rng.random() < 0.5 else len(runner.pool) - 1, x, k]
+                    op = [2, pi, x, k]
             elif kind == "goal":
-                op = [3, rng.randrange(len(runner.pool))]
+                # mostly about a recently produced state (the end of a branch), else any state handed out so far
+                n_ = len(runner.pool)
+                op = [3, rng.randrange(max(0, n_ - 3), n_) if rng.random() < 0.6 else rng.randrange(n_)]
+            elif kind == "init":
+                op = [5]
             else:
                 op = [4]
             out = runner.run_op(op)
+            last_gen = kind == "gen"
             ops.append(op)
             outs.append(out)
             self.note(op, out, flat)
             if kind in ("step", "gen") and out[0] in (1, 2) and out[1][4][0] and wa[0] in (4, 5):
                 if not hasattr(runner, "succeeded"):
                     runner.succeeded = []
+                    runner.scan_queue = []
                 runner.succeeded.append(ai)
+                # scans of the host whose access just changed (process scans report the access level)
+                scans = [i for i in by_target.get(tuple(wa[1]), []) if flat[i][0] in (0, 1, 3)]
+                runner.scan_queue = (runner.scan_queue + [i for i in scans if flat[i][0] == 3 or rng.random() < 0.4])[-6:]
         errs = getattr(runner, "last_error", None)
         self.stats["scenario:" + ("random" if name == "random" else "named")] += 1
         self.stats[f"hosts:{len(sd['hosts'])}"] += 1
@@ -216,7 +299,7 @@ class CaseGen:
     def note(self, op, out, flat):
         st = self.stats
         st["ops"] += 1
-        st["op:" + ["reset", "step", "gen", "goal", "mask"][op[0]]] += 1
+        st["op:" + ["reset", "step", "gen", "goal", "mask", "init"][op[0]]] += 1
         if out[0] == 9:
             st["impl_error"] += 1
             return
@@ -305,6 +388,8 @@ def records_of(case):
         elif op[0] == 3:
             if op[1] < len(pool):
                 goals.append((i, pool[op[1]], out[1]))
+        elif op[0] == 5:
+            pool.append(out[1])
     return recs, goals, resets
 
 
